@@ -218,7 +218,7 @@ def _replay_bv(rec, unit, result, fresh, tu, wd):
     u2 = units.BVUnitClone(unit, unit.name() + "_replay")
     u2.strip_restrict = False
     cfile2, wname2, repl2, _ = units.build_bv(tu, u2, wd, pinned)
-    r2 = cbmcrun.run(cfile2, wd, u2.name(), "jpv_harness", enforce=wname2, replace=repl2, loop_contracts=bool(unit.loop_contracts),
+    r2 = cbmcrun.run(cfile2, wd, u2.name(), "jpv_harness", enforce=wname2, replace=repl2, loop_contracts=units.has_loop_contracts(unit),
                      unwind=unit.unwind, timeout=unit.timeout, extra=unit.extra, defines=unit.defines, checks=unit.checks,
                      solver=unit.solver, unwindset=unit.unwindset)
     rec["pinned_recheck"] = dict(status=r2["status"], reason=r2.get("reason", ""), failed=[list(x) for x in r2["failed"]][:20])
